@@ -68,8 +68,8 @@ def c01_jobs(tier, seed):
     rng = random.Random(seed)
     gaps = list(range(-74, 75))
     if tier == 'quick':
-        keep = {0, 1, -1, 4, -4, 19, -19, 35, 36, -35, -36, 74, -74}
-        rest = [g for g in gaps if g not in keep]
+        keep = {0, 1, -1, 3, -3, 4, -4, 8, -8, 19, -19}
+        rest = [g for g in range(-20, 21) if g not in keep]
         keep.update(rng.sample(rest, 3))
         gaps = sorted(keep)
     jobs = []
@@ -95,6 +95,7 @@ PROPS['C01'] = {
     'assumptions': ['assume-guarantee: callers are checked against the rounding kernel contract R; R itself is checked by vh_reduce_* under precondition P, and P is an obligation at every call site',
                     'sticky flag t denotes an offset strictly between 0 and 1 unit of the kernel input; sound because P forces at least one dropped digit'],
     'validate_per_harness': 3,
+    'job_budget': {'quick': 400, 'thorough': 6000},
 }
 
 
@@ -119,4 +120,49 @@ PROPS['C04'] = {
     'outside': 'antisymmetry/transitivity are corollaries of agreement with the exact order and are not separate queries',
     'assumptions': [],
     'validate_per_harness': 4,
+}
+
+
+# ---------------------------------------------------------------- C08
+def c08_jobs(tier, seed):
+    import random
+    rng = random.Random(seed)
+    combos = []
+    for k in range(0, 37):
+        if k == 0:
+            ovs = [0]
+        elif k <= 35:
+            ovs = list(range(0, k + 1))
+        else:
+            ovs = list(range(0, 37))
+        for ov in ovs:
+            combos.append((k, ov))
+    if tier == 'quick':
+        keep = set()
+        for k in (0, 1, 2, 19, 35, 36):
+            for ov in (0, 1, min(k, 35), 36 if k == 36 else 0):
+                if (k, ov) in set(combos):
+                    keep.add((k, ov))
+        rest = [c for c in combos if c not in keep]
+        keep.update(rng.sample(rest, 4))
+        combos = sorted(keep)
+    jobs = []
+    for fn in (0, 1, 2):
+        for k, ov in combos:
+            jobs.append(('vh_c08', [fn, k, ov]))
+    for c in (1, 2, 3):
+        jobs.append(('vh_c08_special', [c]))
+    jobs.append(('vh_c08_pkg', [], {'cuts': ['Round', 'Ceil', 'Floor']}))
+    return jobs
+
+
+PROPS['C08'] = {
+    'jobs': c08_jobs,
+    'must_reach': ['C08:rounded', 'C08:unchanged', 'C08:tozero', 'C08:zero', 'C08:onequantum', 'C08:inf', 'C08:largequantum', 'C08:special', 'C08:pkg'],
+    'bounds': {
+        'quick': 'digits dropped k in {0,1,2,19,35,>=36} x quantum exponent class ov in {<=12287, 12287+1, 12287+min(k,35), >=12287+36} plus 4 seeded (k,ov) pairs, for Round (6 modes symbolic), Ceil and Floor; coefficient, exponent, sign and dp (all of int64, tied to k/ov) symbolic; NaN/Inf pass-through; package functions.',
+        'thorough': 'every k in 0..35 and >=36 x every ov in 0..k (resp. 0..36) for Round, Ceil, Floor.'},
+    'outside': 'idempotence and the one-quantum distance bound are corollaries of the value specification and are not separate queries',
+    'assumptions': [],
+    'validate_per_harness': 6,
 }
